@@ -276,6 +276,16 @@ def _search(mon, case, logits, lens, conds, name):
             out = mon.lib(name, run)
         else:
             search = M.CTCPrefixSearch(W, beta, lm, vm)
+            if lm is None and logits.size(1) > 1 and (W + logits.size(0)) % 2 == 0:
+                # a history of calls on ONE module object: first a search over the first element alone
+                # (other batch size, unrecorded), then the judged call
+                rec, _REC = _REC, None
+                try:
+                    mon.lib(name + "(warm-up call on the same object)",
+                            lambda: search(logits[:, :1], None if lens is None else lens[:1]))
+                finally:
+                    _REC = rec
+                mon.cls("module_object_reused")
             if init is None:
                 out = mon.lib(name, lambda: search(logits, lens))
             else:
